@@ -27,8 +27,116 @@ def judge(res, o, lean):
         res.fail("start-class-has-no-rule", cfg, "")
 
 
+# ------------------------------------------------------------------ table universes: structure only, no semantics
+def table_worker(args):
+    """searches on table universes (classes are ids, strategies look their children up in random tables; a union and a
+    product strategy may give the same children with other shifts): the specification handed back is judged from its
+    (parent, children, shifts) alone"""
+    import random
+    import signal
+
+    import specrun
+    import utable
+    from comb_spec_searcher import CombinatorialSpecificationSearcher
+    import comb_spec_searcher.comb_spec_searcher as css_mod
+    from comb_spec_searcher.exception import ExceededMaxtimeError, SpecificationNotFound
+    from comb_spec_searcher.rule_db import RuleDB, RuleDBForest, RuleDBForgetStrategy
+    from comb_spec_searcher.strategies.rule import VerificationRule
+    from utable import TC
+
+    seed, count = args
+    rnd = random.Random(seed)
+    outs = []
+    signal.signal(signal.SIGALRM, speccheck._alarm)
+    for _ in range(count):
+        n = rnd.randint(3, 9)
+        U = utable.gen_universe(rnd, n)
+        TC.U = U
+        pack = utable.gen_pack(rnd, iterative=False)
+        # only the forest database decides productivity from the shifts itself; the union-find databases rely on the
+        # strategies being combinatorially sound, which random tables are not
+        dbname = "RuleDBForest"
+        o = {"desc": {"table_seed": seed, "db": dbname, "n": n}, "problems": []}
+        signal.alarm(30)
+        real, st = css_mod.time, random.getstate()
+        try:
+            db = RuleDBForest(reverse=True) if dbname == "RuleDBForest" else {"RuleDB": RuleDB, "RuleDBForgetStrategy": RuleDBForgetStrategy}[dbname]()
+            s = CombinatorialSpecificationSearcher(TC(0), pack, ruledb=db)
+            specrun.quiet()
+            css_mod.time = specrun.TickClock()
+            random.seed(seed)
+            try:
+                spec = s.auto_search(perc=rnd.choice([100, 20]), max_expansion_time=3000)
+            except (SpecificationNotFound, ExceededMaxtimeError):
+                o["status"] = "nospec"
+                outs.append(o)
+                continue
+            except RuntimeError as exc:
+                if "Can't find a rule for ForestRuleKey" in str(exc):  # C11's known finding (foreign-parent factory rules)
+                    o["status"] = "nospec"
+                    outs.append(o)
+                    continue
+                raise
+            o["status"] = "spec"
+            idx = {}
+
+            def ci(c):
+                return idx.setdefault(c, len(idx))
+
+            ci(spec.root)
+            for rule in list(spec):
+                for ch in rule.children:
+                    spec.get_rule(ch)
+            recs = []
+            for cc, rule in list(spec.rules_dict.items()):
+                if isinstance(rule, VerificationRule) or not rule.children:
+                    recs.append(f"c={ci(cc)}&k=ver")
+                else:
+                    recs.append(f"c={ci(cc)}&k=ver&sub={','.join(str(ci(x)) for x in rule.children)}&sh={','.join(map(str, rule.shifts()))}")
+            empties = sorted(i for c, i in idx.items() if c.is_empty())
+            o["line"] = f"{len(idx)} 0 0 0 {','.join(map(str, empties)) or '-'} " + "#".join(recs)
+            o["genuine"] = [f"{r.comb_class!r}: {g}" for r in spec for g in [specrun.genuine(r)] if g]
+            o["root_ok"] = spec.root == TC(0)
+        except speccheck.Timeout:
+            o["status"] = "timeout"
+        except Exception as exc:  # noqa: BLE001
+            o["status"] = "raises"
+            o["problems"].append(("search-finds-a-specification-but-raises-instead-of-handing-it-back", specrun.exc_info(exc)))
+        finally:
+            signal.alarm(0)
+            css_mod.time = real
+            random.setstate(st)
+            specrun.quiet()
+        outs.append(o)
+    return outs
+
+
 def run(tier, seed, factor=1):
-    return speccheck.run_specs("C02", tier, seed, factor, judge)
+    import specrun
+
+    res = speccheck.run_specs("C02", tier, seed, factor, judge)
+    jobs = [(seed * 7907 + i, common.scale(tier, 12, 40)) for i in range(common.scale(tier, 48, 400) * factor)]
+    outs = [o for part in specrun.pool_map(table_worker, jobs) for o in part]
+    specrun.quiet()
+    lines = [o["line"] for o in outs if "line" in o]
+    lean = common.run_driver("Spec", "\n".join(lines) + "\n") if lines else []
+    k = 0
+    for o in outs:
+        res.case(("table", repr(o["desc"]), o.get("line", "")[:80]), nontrivial="line" in o)
+        res.dist["table universe:" + o.get("status", "?")] += 1
+        for sig, d in o["problems"]:
+            res.fail(sig, o["desc"], d)
+        if "line" in o:
+            res.traces += 1
+            chk = speccheck.parse_lean(lean[k])[0]
+            k += 1
+            if not chk:
+                res.fail("spec-not-closed-or-not-productive", o["desc"], {"skeleton": o["line"][:600]})
+            for g in o["genuine"]:
+                res.fail("rule-not-genuine", o["desc"], g)
+            if not o["root_ok"]:
+                res.fail("start-class-has-no-rule", o["desc"], "")
+    return res
 
 
 def search(tier, seed):
